@@ -62,18 +62,8 @@ pub fn judge(specs: &[Spec], case: &Case, l: &mut Local) {
         Err(e) => {
             l.eval(&stratum, &format!("rejected/{vname}"), true, hash_bytes2(&case.ty, &case.content));
             if verdict == Verdict::Accept {
-                let msg = e.to_string();
-                // the library's reason without data: cut at the first colon / quote, digits replaced
-                let reason: String = msg
-                    .trim_start_matches("Invalid message format: ")
-                    .chars()
-                    .take_while(|c| !matches!(c, ':' | '\'' | '"' | '(' | ','))
-                    .map(|c| if c.is_ascii_digit() { 'N' } else { c })
-                    .collect::<String>()
-                    .split_whitespace()
-                    .take(9)
-                    .collect::<Vec<_>>()
-                    .join(" ");
+                // keyed by the candidate's own class (component : class), never by the library's wording
+                let reason = format!("{}:{}", case.component, case.class);
                 v(
                     l,
                     &case.ty,
